@@ -18,15 +18,15 @@ LEVELS = {p: "exploration" for p in PROPS}
 # class mix per property (weights); every property also sees the generic classes
 MIX: Dict[str, List[str]] = {
     "C01": ["random", "random", "feesliq", "margin", "cross", "precision"],
-    "C02": ["random", "margin", "margin", "feesliq", "cross", "precision"],
+    "C02": ["random", "margin", "margin", "feesliq", "cross", "precision", "micro_c07", "micro_c08"],
     "C04": ["ample", "ample", "feesliq", "random", "precision", "micro_c04", "micro_c04"],
     "C05": ["random", "feesliq", "ample", "long", "margin"],
     "C06": ["random", "margin", "margin", "feesliq", "precision", "micro_c06", "micro_c06"],
-    "C07": ["random", "margin", "margin", "cross", "feesliq"],
-    "C08": ["feesliq", "feesliq", "precision", "precision", "random"],
+    "C07": ["random", "margin", "margin", "cross", "feesliq", "micro_c07"],
+    "C08": ["feesliq", "feesliq", "precision", "precision", "random", "micro_c08", "micro_c08"],
     "C09": ["feesliq", "feesliq", "random", "precision"],
     "C10": ["margin", "margin", "cross", "random", "micro_c10"],
-    "C11": ["margin", "margin", "cross", "random"],
+    "C11": ["margin", "margin", "cross", "random", "micro_c07"],
 }
 
 QUICK_CASES = {"C05": 35, "C04": 90, "C06": 90}
